@@ -20,7 +20,16 @@ import (
 	"golang.org/x/tools/go/ssa/ssautil"
 )
 
-const harnessDir = "/verif/harness"
+// harnessDir / repoDir can be redirected to scratch copies (seed testing without touching /repo).
+var harnessDir = envOr("SYMGO_HARNESS_DIR", "/verif/harness")
+var repoDir = envOr("SYMGO_REPO_DIR", "/repo")
+
+func envOr(k, d string) string {
+	if v := os.Getenv(k); v != "" {
+		return v
+	}
+	return d
+}
 const harnessPkgPath = "verif/harness"
 
 type Program struct {
@@ -38,7 +47,7 @@ func loadProgram() (*Program, error) {
 	}
 	// in-package exports for the harness are injected as an overlay (nothing is written to /repo)
 	if b, err := os.ReadFile(harnessDir + "/overlay/clientip_export.go.txt"); err == nil {
-		cfg.Overlay = map[string][]byte{"/repo/clientip/zz_verif_export.go": b}
+		cfg.Overlay = map[string][]byte{repoDir + "/clientip/zz_verif_export.go": b}
 	}
 	initial, err := packages.Load(cfg, ".")
 	if err != nil {
